@@ -341,6 +341,20 @@ pub fn c09(opts: &Opts) -> Report {
                 let want = Out::Ok(format!("{} {}", xin.replace(',', &ju), xin.replace(',', &jl)));
                 if got != want { viol(ctx, format!("C09: format({text:?}, {xin:?}) = {} but each join is plain replacement: {}", got.show(), want.show()), vec![("template", text), ("input", xin.into()), ("observed", got.show()), ("expected", want.show()), ("theorem", "C09_join_split_is_replace".into())]); return; }
             }
+            if i % 40 == 13 {
+                // two (separator, text) pairs that coincide when separator and text are glued with a delimiter character
+                let d = *ctx.rng.pick(&['\u{1f}', '\u{0}', '\u{1e}', '\n', '|', ':', ' ']);
+                let pairs = [("a".to_string(), format!("b{d}x")), (format!("a{d}b"), "x".to_string())];
+                for (sp, xx) in pairs.iter().chain(pairs.iter().rev()) {
+                    let ops = vec![Op::Split(sp.clone(), full.clone()), Op::Join("+".into())];
+                    let t = triple(ctx, &ops, xx, false);
+                    ctx.rep.bump("glued_key_pairs");
+                    if !judge(ctx, "C09", &t, &ops, xx, "C09_cached_split_is_split") { return; }
+                    let ops1 = vec![Op::Split(sp.clone(), full.clone())];
+                    let t1 = triple(ctx, &ops1, xx, false);
+                    if !judge(ctx, "C09", &t1, &ops1, xx, "C09_cached_split_is_split") { return; }
+                }
+            }
             // identity 1: split then (implicit) join restores the text
             let ops1 = vec![Op::Split(s.clone(), full.clone())];
             let t1 = triple(ctx, &ops1, &x, false);
@@ -417,6 +431,26 @@ pub fn c14(opts: &Opts) -> Report {
                 if t.real != expected {
                     viol(ctx, format!("C14: {} on {:?} = {} but the regex crate called directly gives {}", t.text, x, t.real.show(), expected.show()),
                          vec![("template", t.text.clone()), ("input", x.clone()), ("observed", t.real.show()), ("expected", expected.show()), ("theorem", "C14_replace_is_engine".into())]);
+                }
+                return;
+            }
+            if i % 30 == 13 {
+                // two filters in a row: each pattern is its own regex (inline flags of the first do not reach the second,
+                // an invalid pattern is an error even if gluing the two would be valid)
+                let (p1, p2) = *ctx.rng.pick(&[("(?i)^tmp", "^Draft"), ("(?i)a", "B"), ("(?x) a b", "a b"), ("(a", "b)"), ("^#", "^$"), ("(?i)hello", "WORLD")]);
+                let items = ["TMP1", "draft2", "Draft3", "keep", "a b", "ab", "B", "b", "hello WORLD", "Hello world", "#c", ""];
+                let xs = items.join(",");
+                let neg = ctx.rng.chance(1, 2);
+                let ops = vec![Op::Split(",".into(), Range::Range(None, None, false)), if neg { Op::FilterNot(p1.into()) } else { Op::Filter(p1.into()) }, if neg { Op::FilterNot(p2.into()) } else { Op::Filter(p2.into()) }, Op::Join(",".into())];
+                let exp = match (regex::Regex::new(p1), regex::Regex::new(p2)) {
+                    (Ok(r1), Ok(r2)) => Out::Ok(items.iter().filter(|s| r1.is_match(s) != neg).filter(|s| r2.is_match(s) != neg).cloned().collect::<Vec<_>>().join(",")),
+                    _ => Out::Err,
+                };
+                if gens::raw_ok(p1, false) && gens::raw_ok(p2, false) {
+                    let t = triple(ctx, &ops, &xs, false);
+                    ctx.rep.eval(); ctx.rep.bump("adjacent_filters");
+                    if !judge(ctx, "C14", &t, &ops, &xs, "C14_filter_is_engine") { return; }
+                    if t.real != exp { viol(ctx, format!("C14: {} on {:?} = {} but applying the two patterns one after the other gives {}", t.text, xs, t.real.show(), exp.show()), vec![("template", t.text.clone()), ("input", xs.clone()), ("observed", t.real.show()), ("expected", exp.show()), ("theorem", "C14_filter_is_engine".into())]); }
                 }
                 return;
             }
@@ -593,6 +627,24 @@ pub fn c16(opts: &Opts) -> Report {
             };
             // strings of white space only (ASCII and not), and strings that begin with a combining mark
             let base = if i % 25 == 4 { let n = 1 + ctx.rng.below(4); (0..n).map(|_| *ctx.rng.pick(gens::WS_CHARS)).collect() } else if i % 25 == 14 { format!("\u{301}{base}") } else { base };
+            if i % 25 == 9 || i % 25 == 19 {
+                let ascii = gens::word(&mut ctx.rng);
+                let n = ascii.chars().count() as i128;
+                let nona = *ctx.rng.pick(&['é', '中', '😀', 'ß']);
+                let (ops, x): (Vec<Op>, String) = if i % 25 == 9 {
+                    // everything before position b is ASCII, the character AT b is not
+                    (vec![Op::Substring(Range::Range(Some(ctx.rng.below(2) as i128), Some(n), true))], format!("{ascii}{nona}{}", if ctx.rng.chance(1, 2) { "d" } else { "" }))
+                } else {
+                    // an ASCII text padded with a non-ASCII fill, then an operation that works on characters
+                    let second = ctx.rng.pick(&[Op::Reverse, Op::Substring(Range::Range(Some(1), Some(4), false)), Op::Trim(String::new(), TDir::Both), Op::Substring(Range::Index(-1))]).clone();
+                    (vec![Op::Pad((n + 3) as u128, nona, gens::pdir(&mut ctx.rng)), second], ascii.clone())
+                };
+                ctx.rep.eval(); ctx.rep.bump("ascii_then_non_ascii_cases");
+                let t = triple(ctx, &ops, &x, false);
+                ctx.rep.nontrivial(&(t.text.clone(), x.clone()));
+                judge(ctx, "C16", &t, &ops, &x, "C16_ascii_fast_paths_unobservable");
+                return;
+            }
             let op = match ctx.rng.below(8) {
                 0 => Op::Reverse,
                 1 => Op::Substring(gens::range(&mut ctx.rng)),
